@@ -387,7 +387,140 @@ def p6(prog, ctx):
     ctx.floor("P6", "partitioned writes in split_read_group_table", n, 1)
 
 
+AP = "src/alignment_processor.py"
+
+
+def p7(prog, ctx):
+    """File provenance of a read: the number that travels with an alignment from BAMOnlineMerger to get_group_id(alignment, bam_pairs[n][1])
+    is the position of the alignment's own BAM in bam_pairs."""
+    cls = prog.cls(AP, "BAMOnlineMerger")
+    mk = prog.func(AP, "make_alignment_tuple")
+    rets = [r for r in walk_no_nested(mk) if isinstance(r, ast.Return)]
+    if len(rets) != 1 or not isinstance(rets[0].value, ast.Tuple):
+        raise AnalysisError("make_alignment_tuple no longer returns one tuple")
+    params = [a.arg for a in mk.args.args]
+    slots = [src(e) for e in rets[0].value.elts]
+    if len(params) != 2 or params[0] not in slots or params[1] not in slots:
+        raise AnalysisError("make_alignment_tuple: the index / alignment parameters are not elements of the returned tuple")
+    idx_slot, aln_slot = slots.index(params[0]), slots.index(params[1])
+    meths = prog.methods_of(cls, inherited=False)
+
+    def aligned_with_inputs(expr, where):
+        """expr is a sequence whose i-th element belongs to the i-th entry of self.bam_pairs"""
+        t = src(expr)
+        if t == "self.bam_pairs":
+            return True
+        if isinstance(expr, ast.Attribute) and isinstance(expr.value, ast.Name) and expr.value.id == "self":
+            defs = [a for f in meths.values() for a in walk_no_nested(f)
+                    if isinstance(a, ast.Assign) and any(src(x) == t for x in a.targets)]
+            muts = [c for f in meths.values() for c in walk_no_nested(f) if isinstance(c, ast.Call) and isinstance(c.func, ast.Attribute)
+                    and src(c.func.value) == t and c.func.attr in ("append", "insert", "pop", "remove", "extend", "sort", "reverse", "clear")]
+            if not defs or muts:
+                return False
+            for a in defs:
+                v = a.value
+                if not (isinstance(v, ast.ListComp) and len(v.generators) == 1 and not v.generators[0].ifs
+                        and src(v.generators[0].iter) == "self.bam_pairs"):
+                    return False
+            return True
+        return False
+
+    n = 0
+    for name, f in sorted(meths.items()):
+        for c in walk_no_nested(f):
+            if not (isinstance(c, ast.Call) and (call_name(c) or "").split(".")[-1] == "make_alignment_tuple" and len(c.args) == 2):
+                continue
+            n += 1
+            idx, val = c.args
+            ok, why = False, "the index %s is neither the position of the iterator in a sequence aligned with self.bam_pairs nor the index " \
+                             "slot of the queue element just taken" % src(idx)
+            if isinstance(idx, ast.Name):
+                # (1) enumerate index of an enclosing loop over an aligned sequence, value = next(<the loop's element>)
+                for loop in flow.enclosing_loops(c):
+                    if isinstance(loop, ast.For) and isinstance(loop.iter, ast.Call) and call_name(loop.iter) == "enumerate" \
+                            and isinstance(loop.target, ast.Tuple) and len(loop.target.elts) == 2 and src(loop.target.elts[0]) == idx.id:
+                        seq = loop.iter.args[0]
+                        elem = src(loop.target.elts[1])
+                        if not aligned_with_inputs(seq, c):
+                            why = "%s enumerates %s, which is not element-for-element the list of input files (self.bam_pairs)" % (idx.id, src(seq))
+                        elif src(val) not in ("next(%s)" % elem, "next(%s[%s])" % (src(seq), idx.id)):
+                            why = "the alignment %s does not come from iterator number %s" % (src(val), idx.id)
+                        else:
+                            ok = True
+                # (2) index slot of the element taken from the queue, value = next(self.alignment_iterators[idx])
+                if not ok:
+                    defs = [a for a in walk_no_nested(f) if isinstance(a, ast.Assign) and len(a.targets) == 1 and src(a.targets[0]) == idx.id]
+                    if len(defs) == 1 and isinstance(defs[0].value, ast.Subscript) and isinstance(defs[0].value.slice, ast.Constant):
+                        if defs[0].value.slice.value != idx_slot:
+                            why = "%s reads slot %s of the queue element; make_alignment_tuple puts the file index into slot %d" % (
+                                src(defs[0]), defs[0].value.slice.value, idx_slot)
+                        else:
+                            m = re.fullmatch(r"next\((self\.\w+)\[%s\]\)" % re.escape(idx.id), src(val))
+                            if not m:
+                                why = "the next alignment %s is not taken from iterator number %s" % (src(val), idx.id)
+                            elif not aligned_with_inputs(ast.parse(m.group(1), mode="eval").body, c):
+                                why = "%s is not element-for-element the list of input files (self.bam_pairs)" % m.group(1)
+                            else:
+                                ok = True
+            if ok:
+                ctx.ok("P7", "%s:%d" % (AP, c.lineno), "%s: %s carries the position of its BAM in bam_pairs" % (f._qualname, src(c)[:70]))
+            else:
+                ctx.fail("P7", c, f._qualname, src(c)[:90], "%s: the file name handed to get_group_id is bam_pairs[index][1], so reads are "
+                         "labelled with another input file" % why)
+    # what get() yields: (index slot, alignment slot) of the element taken
+    g = meths.get("get")
+    if g is None:
+        raise AnalysisError("BAMOnlineMerger.get not found")
+    for y in walk_no_nested(g):
+        if isinstance(y, ast.Yield) and isinstance(y.value, ast.Tuple) and len(y.value.elts) == 2:
+            n += 1
+            env = {a.targets[0].id: a.value for a in walk_no_nested(g) if isinstance(a, ast.Assign) and len(a.targets) == 1
+                   and isinstance(a.targets[0], ast.Name)}
+            parts = []
+            for e in y.value.elts:
+                e = env.get(e.id, e) if isinstance(e, ast.Name) else e
+                parts.append(e.slice.value if isinstance(e, ast.Subscript) and isinstance(e.slice, ast.Constant) else None)
+            if parts != [idx_slot, aln_slot]:
+                ctx.fail("P7", y, g._qualname, src(y), "get() yields slots %s of the queue element, make_alignment_tuple stores (file index, alignment) "
+                         "in slots (%d, %d)" % (parts, idx_slot, aln_slot))
+            else:
+                ctx.ok("P7", "%s:%d" % (AP, y.lineno), "get() yields (file index, alignment) from slots (%d, %d)" % (idx_slot, aln_slot))
+    # consumers: get_group_id(alignment, <...>.bam_pairs[i][1]) with (i, alignment) the loop's own pair
+    for m, q, f in prog.all_functions():
+        for c in walk_no_nested(f):
+            if not (isinstance(c, ast.Call) and (call_name(c) or "").endswith(".get_group_id") and len(c.args) == 2):
+                continue
+            if m.rel != AP:
+                continue
+            n += 1
+            a, fn = c.args
+            mm = re.fullmatch(r"(?:self\.)?(?:\w+\.)*bam_pairs\[(\w+)\]\[1\]", src(fn))
+            if not mm:
+                ctx.fail("P7", c, q, src(c)[:90], "the file name given to get_group_id is not bam_pairs[<index>][1]")
+                continue
+            pair_ok = False
+            for loop in flow.enclosing_loops(c):
+                if isinstance(loop, ast.For) and isinstance(loop.target, ast.Tuple) and len(loop.target.elts) == 2 \
+                        and [src(e) for e in loop.target.elts] == [mm.group(1), src(a)]:
+                    pair_ok = True
+            if pair_ok:
+                ctx.ok("P7", "%s:%d" % (AP, c.lineno), "%s: get_group_id(%s, bam_pairs[%s][1]) uses the loop's own (index, alignment) pair" % (q, src(a), mm.group(1)))
+            else:
+                ctx.fail("P7", c, q, src(c)[:90], "the index %s and the alignment %s are not the (index, alignment) pair of one enclosing loop: the read "
+                         "is labelled with the file of another alignment" % (mm.group(1), src(a)))
+    ctx.floor("P7", "index hand-over sites (make_alignment_tuple calls, get() yield, get_group_id calls)", n, 5)
+
+
 def run(prog, ctx):
+    ctx.rule("P7", "file provenance: every make_alignment_tuple(i, a) in BAMOnlineMerger takes a from iterator number i of a sequence built "
+                   "element-for-element from self.bam_pairs (or re-uses the index slot of the queue element it replaces); get() yields the "
+                   "(index, alignment) slots; get_group_id(alignment, bam_pairs[i][1]) uses the (i, alignment) pair of its own loop")
+    p7(prog, ctx)
+    ctx.rule("P8", "the read groups a chromosome contributes to the group universe are written to its *_groups file by the collection stage "
+                   "and, when --resume reuses the chromosome, the returned set depends on what is read from that file (rule R9 of C07, "
+                   "restricted to the group element)")
+    from . import c07 as _c07
+    _c07.r9(prog, ctx, tag="P8", positions=(0,))
     ctx.rule("P6", "in split_read_group_table the 'already written' set consulted before a write to files[k] is indexed by the same k")
     p6(prog, ctx)
     ctx.rule("P4", "statements controlled by a rendering flag (self.output_grouped_*) are writes to a file or assignments to names used "
